@@ -162,7 +162,7 @@ func (p *Prog) Graph(f *Func) *Graph {
 				en := newNode(KEdge, b, nil)
 				en.Truth = i == 0
 				if cond != nil {
-					en.Ast = cond
+					en.Ast = inlineCond(f, cond)
 					if sw := p.swTag[cond]; sw != nil {
 						en.Tag = sw.Tag
 					}
@@ -506,4 +506,77 @@ func (g *Graph) LoopDone(loop ast.Stmt) *GNode {
 		}
 	}
 	return nil
+}
+
+// inlineCond replaces a condition that is a call of a local predicate closure - `pred := func() bool { return <expr> }`
+// assigned exactly once, called without arguments - by <expr> (and `!pred()` by `!(<expr>)`), so that facts and guards
+// are read off the real comparison. Anything else is returned unchanged.
+func inlineCond(f *Func, cond ast.Expr) ast.Expr {
+	e := unparen(cond)
+	if u, ok := e.(*ast.UnaryExpr); ok && u.Op == token.NOT {
+		in := inlineCond(f, u.X)
+		if in == u.X {
+			return cond
+		}
+		return &ast.UnaryExpr{OpPos: u.OpPos, Op: token.NOT, X: &ast.ParenExpr{Lparen: in.Pos(), X: in, Rparen: in.End()}}
+	}
+	if b, ok := e.(*ast.BinaryExpr); ok && (b.Op == token.LAND || b.Op == token.LOR) {
+		x, y := inlineCond(f, b.X), inlineCond(f, b.Y)
+		if x == b.X && y == b.Y {
+			return cond
+		}
+		return &ast.BinaryExpr{X: x, OpPos: b.OpPos, Op: b.Op, Y: y}
+	}
+	c, ok := e.(*ast.CallExpr)
+	if !ok || len(c.Args) != 0 {
+		return cond
+	}
+	id, ok := unparen(c.Fun).(*ast.Ident)
+	if !ok {
+		return cond
+	}
+	info := f.Pkg.TypesInfo
+	obj, ok := info.Uses[id].(*types.Var)
+	if !ok || obj.IsField() {
+		return cond
+	}
+	root := f.Root()
+	if root.Body == nil {
+		return cond
+	}
+	var lit *ast.FuncLit
+	n := 0
+	ast.Inspect(root.Body, func(m ast.Node) bool {
+		switch s := m.(type) {
+		case *ast.AssignStmt:
+			for i, l := range s.Lhs {
+				lid, ok := l.(*ast.Ident)
+				if !ok || (info.Defs[lid] != obj && info.Uses[lid] != obj) {
+					continue
+				}
+				n++
+				if len(s.Rhs) == len(s.Lhs) {
+					lit, _ = unparen(s.Rhs[i]).(*ast.FuncLit)
+				}
+			}
+		case *ast.ValueSpec:
+			for i, nm := range s.Names {
+				if info.Defs[nm] == obj {
+					n++
+					if i < len(s.Values) {
+						lit, _ = unparen(s.Values[i]).(*ast.FuncLit)
+					}
+				}
+			}
+		}
+		return true
+	})
+	if n != 1 || lit == nil || len(lit.Body.List) != 1 || (lit.Type.Params != nil && len(lit.Type.Params.List) != 0) {
+		return cond
+	}
+	rs, ok := lit.Body.List[0].(*ast.ReturnStmt)
+	if !ok || len(rs.Results) != 1 {
+		return cond
+	}
+	return rs.Results[0]
 }
